@@ -220,5 +220,8 @@ def zc_finish (ext : Ext) (e : EncState) (crc : UInt32) : M Unit :=
     M.writeAll (ext.zcEncrypt e.pw (e.buffer.take 11 ++ [(crc >>> 24).toUInt8] ++ e.buffer.drop 12))
     M.flush
 
+/-- `ZipCryptoWriter::write` / `write_all`: the bytes are buffered until `finish` -/
+def zc_write (e : EncState) (bs : Bytes) : EncState := { e with buffer := e.buffer ++ bs }
+
 end S
 end Rs
